@@ -32,8 +32,11 @@ ghostvar gpp bool
 assume pure func (s fmt.State) Flag(c int) bool
 
 assume func (s fmt.State) Width() (wid int, ok bool)
+  ensures wid >= 0
+
 
 assume func (s fmt.State) Precision() (prec int, ok bool)
+  ensures prec >= 0
 
 assume func strconv.Itoa(n int) (r string)
   modifies glastn
@@ -46,11 +49,14 @@ assume func (b *strings.Builder) WriteByte(c byte) (err error)
   ensures old(fstage) >= 1 && c != 46 ==> fstage == 1 && eplus == (old(eplus) || c == 43) && eminus == (old(eminus) || c == 45) && esharp == (old(esharp) || c == 35) && espace == (old(espace) || c == 32) && ezero == (old(ezero) || c == 48) && ehasp == old(ehasp) && ep == old(ep)
   ensures old(fstage) >= 1 && c == 46 ==> fstage == 3 && ehasp && ep == 0 && eplus == old(eplus) && eminus == old(eminus) && esharp == old(esharp) && espace == old(espace) && ezero == old(ezero)
 
+-- fmt reads a '0' in flag position as the zero-padding flag, not as a width: the decimal rendering of 0
+-- written where the width goes sets that flag and leaves the width absent.
 assume func (b *strings.Builder) WriteString(s string) (n int, err error)
-  requires [C14] fstage == 1 || fstage == 3
-  modifies fstage, ehasw, ew, ep
-  ensures old(fstage) == 1 ==> fstage == 2 && ehasw && ew == glastn && ep == old(ep)
-  ensures old(fstage) == 3 ==> fstage == 4 && ep == glastn && ehasw == old(ehasw) && ew == old(ew)
+  requires [C14] (fstage == 1 || fstage == 3) && glastn >= 0
+  modifies fstage, ehasw, ew, ep, ezero
+  ensures old(fstage) == 1 && glastn > 0 ==> fstage == 2 && ehasw && ew == glastn && ep == old(ep) && ezero == old(ezero)
+  ensures old(fstage) == 1 && glastn == 0 ==> fstage == 1 && ezero && ehasw == old(ehasw) && ew == old(ew) && ep == old(ep)
+  ensures old(fstage) == 3 ==> fstage == 4 && ep == glastn && ehasw == old(ehasw) && ew == old(ew) && ezero == old(ezero)
 
 assume func (b *strings.Builder) WriteRune(r rune) (n int, err error)
   requires [C14] fstage >= 1 && fstage <= 4
@@ -70,5 +76,5 @@ func MakeFormat(s fmt.State, verb rune) (justV bool, format string)
   ensures [C14] justV ==> len(format) == 2 && format[0] == 37 && format[1] == 118
   ensures [C14] !justV && !s.Flag(43) && !s.Flag(45) && !s.Flag(35) && !s.Flag(32) && !s.Flag(48) && !gwp && !gpp && verb == 115 ==> len(format) == 2 && format[0] == 37 && format[1] == 115
   ensures [C14] !justV && !s.Flag(43) && !s.Flag(45) && !s.Flag(35) && !s.Flag(32) && !s.Flag(48) && !gwp && !gpp && verb == 100 ==> len(format) == 2 && format[0] == 37 && format[1] == 100
-  ensures [C14] !justV && !(!s.Flag(43) && !s.Flag(45) && !s.Flag(35) && !s.Flag(32) && !s.Flag(48) && !gwp && !gpp && (verb == 115 || verb == 100)) ==> fstage == 5 && everb == verb && eplus == s.Flag(43) && eminus == s.Flag(45) && esharp == s.Flag(35) && espace == s.Flag(32) && ezero == s.Flag(48) && ehasw == gwp && (gwp ==> ew == gw) && ehasp == gpp && (gpp ==> ep == gp)
+  ensures [C14] !justV && !(!s.Flag(43) && !s.Flag(45) && !s.Flag(35) && !s.Flag(32) && !s.Flag(48) && !gwp && !gpp && (verb == 115 || verb == 100)) ==> fstage == 5 && everb == verb && eplus == s.Flag(43) && eminus == s.Flag(45) && esharp == s.Flag(35) && espace == s.Flag(32) && ezero == s.Flag(48) && (ehasw ? ew : 0) == (gwp ? gw : 0) && ehasp == gpp && (gpp ==> ep == gp)
 @*/
